@@ -53,6 +53,27 @@ CHECKS = {
          "lists over {x,y,z-dangling} on root and loggers): strict success iff well-formed, reported names = offending names (no innocent, none missing), lossy result = valid items in order, "
          "and every returned Config goes through Logger::new and is logged through with deliveries checked by the reference router.",
          "Trusted: well-formedness read literally from the property text (so '::a' is well-formed).", "DESIGN.md §5 C13"),
+ "C15": ("model_checking", "E-SCHED + E-HIST + E-PROC",
+         "preemption-bounded exhaustive schedule exploration of real threads for the swap; explicit-state exploration of a reloader model with every poll-terminated history replayed on the real reloader thread",
+         "Swap atomicity: 1-2 logging threads x 1-2 records against 1-2 threads calling Handle::set_config (configurations with different appender table sizes, one that switches the probed level off), "
+         "scheduling points at every ArcSwap load/store (cfg-guarded shim) and at every delivery; all schedules with at most 2-3 (3-4) preemptions; each record's delivery set must be the complete route of a "
+         "configuration that may be in force during the call (from the recorded happens-before). Re-entrancy: appender/filter calling set_config at every fan-out position. Reloader: BFS over the model "
+         "(file text A/B/other rate/no rate/syntax error/missing, mtime changed, last text seen, config in force, rate) with write/touch/delete/poll to depth 5 (7) with deduplication and every history to depth 4 (5) "
+         "without; each poll-terminated path runs in its own child on the real init_file + reloader thread stepped through the guarded sleep hook; compared: configuration in force, appender constructions, next sleep duration.",
+         "Trusted: sequentially consistent hand-over at points (arc_swap internals are outside the model). After a file without refresh_rate is applied the reloader is expected to stop.", "DESIGN.md §5 C15"),
+ "C16": ("model_checking", "E-PROC + E-ENUM + E-HIST",
+         "exhaustive instant grids per time zone through the guarded schedule computation against a naive-local-time reference, plus exhaustive arrival-class sequences through the real appender under a driven clock",
+         "One child per zone (UTC, +5:30, +5:45, New_York, Berlin, Lord_Howe (30-minute DST), Havana and Sao_Paulo (midnight transitions), Apia (skipped day)). Per zone: every second within 2 min (2 h) of every "
+         "offset transition 2010-2030, every minute (20 s) of the transition days, calendar corners, a two-year grid; x 7 units x n in {1,2,3,5,7,12,24,60,100} x modulate: never a panic, next > now, and wherever the "
+         "offset does not change between now and next, next equals the reference boundary. Sequences: every sequence of arrival classes {E-1s,E,E+1s,E+unit+1s} of length 3 (4) through RollingFileAppender with the real "
+         "TimeTrigger (fires on first arrival >= E, record on the right side of the rotation, reschedules into the future, random delay within its range).",
+         "Trusted: reference_next() on naive date-times; tzdata of the sandbox; n >= 1.", "DESIGN.md §5 C16"),
+ "C18": ("model_checking", "E-PROC + E-ENUM",
+         "complete child-process matrix over environment x terminal x options with byte-level judgement, plus exhaustive enumeration of all styles of AnsiWriter",
+         "All 432 cells of NO_COLOR x CLICOLOR x CLICOLOR_FORCE in {unset,0,1} x stdout/stderr x target is a pty/pipe (the other stream of the opposite kind) x tty_only on/off/absent x builder/config file; each child "
+         "logs five levels through highlight and nested highlight; both streams are captured: chosen stream only, tty_only => written iff the target is a terminal, escapes iff colour is enabled by the stated precedence, "
+         "every escape a well-formed SGR that decodes, reset before the line ends, stripped text equals the plain rendering. AnsiWriter over Vec<u8>: all 243 styles and all pairs of consecutive styles.",
+         "Trusted: pty behaviour of the sandbox (raw mode). Windows console code is not covered.", "DESIGN.md §5 C18"),
  "C04": ("model_checking", "E-HIST + E-SCHED",
          "explicit-state BFS over a reference model with per-transition replay on the real appender, plus preemption-bounded exhaustive schedule exploration of real threads",
          "Sequential: per world (open mode, pre-existing file absent/empty/non-empty, nested directories, 1- or 3-chunk encoder) all histories of append(0|1|1023|1024|1025|2500 bytes) and reopen to depth 4 (6); "
